@@ -58,10 +58,10 @@ def plan(tier, seed):
     for fmt in FMTS:
         for name, v in boundaries(refpack.FMT_WIDTH[fmt[1].lower()]):
             specs.append({'k': 'val', 'd': 'pack', 'kw': fmt, 'b': name})
-    specs.extend({'k': 'valr'} for _ in range(600 if tier == 'quick' else 100000))
-    specs.extend({'k': 'str'} for _ in range(1200 if tier == 'quick' else 200000))
-    specs.extend({'k': 'ib'} for _ in range(1400 if tier == 'quick' else 200000))
-    specs.extend({'k': 'ibf'} for _ in range(200 if tier == 'quick' else 20000))
+    specs.extend({'k': 'valr'} for _ in range(2000 if tier == 'quick' else 500000))
+    specs.extend({'k': 'str'} for _ in range(4000 if tier == 'quick' else 1000000))
+    specs.extend({'k': 'ib'} for _ in range(5000 if tier == 'quick' else 1500000))
+    specs.extend({'k': 'ibf'} for _ in range(500 if tier == 'quick' else 100000))
     return specs
 
 
